@@ -133,16 +133,16 @@ def expTape (args : List String) : Option String := do
     some (showExp (expImpl (tapeOps tp) (tapeMexp cols) cfg ⟨0, 0, 0, 0⟩) (fun _ => "-"))
   | _ => none
 
-/-- public wrapper on the same tape: `ret` / `raise <kind>` -/
+/-- `kry.exppub expTol normTol herm maxDim n0 ns n2s ovs expdCols` — the PUBLIC `krylov_exp`, arguments in
+the order of its own signature, on the tape of a run made through it: `ret` / `raise <kind>`. -/
 def expTapePub (args : List String) : Option String := do
   match args with
-  | [herm, et, nt, md, n0, ns, n2s, ovs, cols] =>
-    let cfg : ExpCfg Float := { isHermitian := ← parseB herm, expTol := ← parseF et,
-                                normTol := ← parseF nt, maxDim := ← md.toNat? }
+  | [et, nt, herm, md, n0, ns, n2s, ovs, cols] =>
     let tp : Tape := { initNorms := #[← parseF n0], ns := #[← parse1 parseF ns],
                        n2s := #[← parse1 parseF n2s], ovs := #[← parse2 parseC ovs], ritzNorms := #[] }
     let cols ← parse2 parseC cols
-    match krylovExp (tapeOps tp) (tapeMexp cols) cfg ⟨0, 0, 0, 0⟩ with
+    match krylovExpPublic (tapeOps tp) (tapeMexp cols) ⟨0, 0, 0, 0⟩ (← parseF et) (← parseF nt)
+        (← parseB herm) (← md.toNat?) with
     | .ok _ => some "ret"
     | .error e => some s!"raise {showErr e}"
   | _ => none
@@ -161,27 +161,39 @@ def parseECfg (rt nt md mr : String) : Option (EnergyCfg Float) := do
   some { residTol := ← parseF rt, normTol := ← parseF nt, maxDim := ← md.toNat?,
          maxRestarts := ← mr.toNat?, numTol := 1e-12 }
 
+def svHd (h : Hd) : String :=
+  if h.kind = 4 then s!"ritz:{h.c}:{h.j}" else if h.kind = 1 then s!"q:{h.c}" else
+  if h.kind = 0 then "input" else "other"
+
+def parseETape (ins ovs betas rns : String) : Option Tape := do
+  let ov2 ← parse2 parseC ovs
+  some { initNorms := ← parse1 parseF ins, ns := #[], n2s := ← parse2 parseF betas,
+         ovs := ov2.map (fun a => a.map (fun z => #[z])), ritzNorms := ← parse2 parseF rns }
+
 /-- `kry.emin residTol normTol maxDim maxRestarts initNorms ovs betas ritzNorms eighs`
     (`ovs`,`betas`,`ritzNorms` = `[cycle][j]`, `eighs` = `[cycle][j][θ,y…]`); the reply's last
     field names the returned state: `q:c` (start vector of cycle `c`) or `ritz:c:j`. -/
-def eminTape (pub : Bool) (args : List String) : Option String := do
+def eminTape (args : List String) : Option String := do
   match args with
   | [rt, nt, md, mr, ins, ovs, betas, rns, eighs] =>
     let cfg ← parseECfg rt nt md mr
-    let ov2 ← parse2 parseC ovs
-    let tp : Tape := { initNorms := ← parse1 parseF ins, ns := #[], n2s := ← parse2 parseF betas,
-                       ovs := ov2.map (fun a => a.map (fun z => #[z])),
-                       ritzNorms := ← parse2 parseF rns }
+    let tp ← parseETape ins ovs betas rns
     let eg ← parse3 parseF eighs
-    let sv : Hd → String := fun h =>
-      if h.kind = 4 then s!"ritz:{h.c}:{h.j}" else if h.kind = 1 then s!"q:{h.c}" else
-      if h.kind = 0 then "input" else "other"
-    if pub then
-      match energyMin (tapeOps tp) (tapeEigh eg) cfg ⟨0, 0, 0, 0⟩ with
-      | .ok (h, e) => some s!"ret {showOptF e} {sv h}"
-      | .error e => some s!"raise {showErr e}"
-    else
-      some (showEnergy (energyImpl (tapeOps tp) (tapeEigh eg) cfg ⟨0, 0, 0, 0⟩) sv)
+    some (showEnergy (energyImpl (tapeOps tp) (tapeEigh eg) cfg ⟨0, 0, 0, 0⟩) svHd)
+  | _ => none
+
+/-- `kry.eminpub normTol residTol maxDim initNorms ovs betas ritzNorms eighs` — the PUBLIC
+`krylov_energy_minimization`, arguments in the order of its own signature, on the tape of a run made
+through it: `ret energy state` / `raise <kind>`. -/
+def eminTapePub (args : List String) : Option String := do
+  match args with
+  | [nt, rt, md, ins, ovs, betas, rns, eighs] =>
+    let tp ← parseETape ins ovs betas rns
+    let eg ← parse3 parseF eighs
+    match energyMinPublic (tapeOps tp) (tapeEigh eg) (1e-12 : Float) ⟨0, 0, 0, 0⟩ (← parseF nt) (← parseF rt)
+        (← md.toNat?) with
+    | .ok (h, e) => some s!"ret {showOptF e} {svHd h}"
+    | .error e => some s!"raise {showErr e}"
   | _ => none
 
 /-! ### dense instance -/
@@ -265,8 +277,8 @@ def errOkF (args : List String) : Option String := do
   | _ => none
 
 def handlers : List (String × (List String → Option String)) :=
-  [("kry.exp", expTape), ("kry.exppub", expTapePub), ("kry.emin", eminTape false),
-   ("kry.eminpub", eminTape true), ("kry.expd", expDense), ("kry.emind", eminDense),
+  [("kry.exp", expTape), ("kry.exppub", expTapePub), ("kry.emin", eminTape),
+   ("kry.eminpub", eminTapePub), ("kry.expd", expDense), ("kry.emind", eminDense),
    ("kry.errok", errOkF), ("kry.ritz", ritzDense), ("kry.lanczos", lanczosDense)]
 
 end EmuVerif.Drv.Krylov
